@@ -38,4 +38,12 @@ theorem ne_zero_iff (m : Mask) : m ≠ 0 ↔ ∃ j, Mask.get m j = true := by
   · intro h; exact Nat.exists_testBit_of_ne_zero h
   · intro ⟨j, hj⟩ h0; subst h0; rw [get_zero] at hj; cases hj
 
+
+theorem get_and (a b : Mask) (j : Nat) : Mask.get (a &&& b) j = (Mask.get a j && Mask.get b j) := by
+  unfold Mask.get; exact Nat.testBit_and a b j
+theorem get_or (a b : Mask) (j : Nat) : Mask.get (a ||| b) j = (Mask.get a j || Mask.get b j) := by
+  unfold Mask.get; exact Nat.testBit_or a b j
+theorem get_xor (a b : Mask) (j : Nat) : Mask.get (a ^^^ b) j = (Mask.get a j ^^ Mask.get b j) := by
+  unfold Mask.get; exact Nat.testBit_xor a b j
+
 end Arche.NatMask
